@@ -168,6 +168,31 @@ func (c *Ctx) skipDiscipline(h *handlerRoles) int {
 			desc = append(desc, "orphan update with neither labels nor owner changed")
 		}
 	}
+	// the delivered object is neither a pod nor a tombstone holding a pod (stated over the handler's
+	// parameter, whatever form the type tests take: comma-ok assertions, a type switch, a helper)
+	for _, pf := range fi.Decl.Type.Params.List {
+		for _, pn := range pf.Names {
+			it, isIface := info.TypeOf(pn).Underlying().(*types.Interface)
+			if !isIface || it.NumMethods() != 0 {
+				continue
+			}
+			ot := fn.Term(pn)
+			podT := types.NewPointer(c.P.Lookup("k8s.io/api/core/v1", "Pod").Type())
+			var tombT types.Type
+			if tn := c.P.Lookup("k8s.io/client-go/tools/cache", "DeletedFinalStateUnknown"); tn != nil {
+				tombT = tn.Type()
+			}
+			notPod := gf.Not(gf.FBool(gf.TypeIs(ot, podT)))
+			if tombT == nil {
+				skips = append(skips, notPod)
+				continue
+			}
+			tomb := gf.CastT(ot, tombT)
+			inner := gf.Field(tomb, "Obj", nil)
+			skips = append(skips, gf.And(notPod, gf.Or(gf.Not(gf.FBool(gf.TypeIs(ot, tombT))), gf.Not(gf.FBool(gf.TypeIs(inner, podT))))))
+			desc = append(desc, "the object is not a pod and not a tombstone of a pod")
+		}
+	}
 	// comma-ok assertion failures (tombstones)
 	ast.Inspect(fi.Decl.Body, func(n ast.Node) bool {
 		if as, ok := n.(*ast.AssignStmt); ok && len(as.Lhs) == 2 && len(as.Rhs) == 1 {
